@@ -330,8 +330,19 @@ fn interval_cell(srv: &Srv, cfg: &SrvCfg, spec: &Value) -> Value {
                 } else {
                     let t1 = Instant::now();
                     let _ = t0;
-                    let again = cl.recv_wait(Duration::from_millis(t * 1000 + 2500));
+                    if spec["dup_ack_before_timeout"].as_bool().unwrap_or(false) {
+                        // 0.7 s before the acknowledged interval is over, a duplicate ACK(0) arrives: it must not
+                        // trigger anything (the transfer has to use the ACKNOWLEDGED interval, even if it exceeds the default)
+                        std::thread::sleep(Duration::from_millis(t * 1000 - 700));
+                        cl.to_peer(&rc::ack(0));
+                    }
+                    let dup_variant = spec["dup_ack_before_timeout"].as_bool().unwrap_or(false);
+                    let wait_until = if dup_variant { Duration::from_millis(t * 1000 + 300) } else { Duration::from_millis(t * 1000 + 2500) };
+                    let again = cl.recv_wait(wait_until.saturating_sub(t1.elapsed()));
                     match again {
+                        // (after a stray datagram the receive timeout starts afresh, so the retransmission itself may come up
+                        // to one more interval later: only "not before the acknowledged interval" is checked in that variant)
+                        None if dup_variant => {}
                         None => viol = Some(format!("no retransmission within {} ms although timeout={t}s was acknowledged", t * 1000 + 2500)),
                         Some((b, _)) => {
                             let gap = t1.elapsed();
@@ -379,6 +390,8 @@ pub fn check(tier: Tier) -> Outcome {
         for &t in touts {
             cells.push(json!({"srv": s.to_json(), "family": "interval", "timeout": t, "write": false}));
         }
+        // an interval above the 5 s default, with a duplicate ACK shortly before it elapses
+        cells.push(json!({"srv": s.to_json(), "family": "interval", "timeout": 6, "write": false, "dup_ack_before_timeout": true}));
         for write in [false, true] {
             let mut lo = 0;
             while lo < nlists {
